@@ -18,8 +18,10 @@ LEVEL_TEXT = ("Coq theorems over the session model and the extension layer model
               "known by construction, installed with the real luahost and run against real SMTP sessions sequentially and from up to 8 "
               "concurrent sessions. *Partial*: gopher-lua and the script=>outcome mapping are tested, not proved; several theorems (deny_literal_rcpt, erroring_*_is_silent, "
               "replacement_*, defer_is_policy) unfold three-line definitions: that the handlers map a Lua outcome to an answer THIS way is the model's transcription "
-              "of lua.go, validated by the correspondence run; the deny TEXT is not in the model (a reply line is code x continuation flag): that the client receives "
-              "the hook's text is checked by the differential run on the raw reply lines only (verdict deny-text-differs-from-hook-answer)")
+              "of lua.go, validated by the correspondence run; the deny TEXT: reply lines of the session model are code x continuation flag, the line itself is Hooks.deny_line - its format "
+              "is the source's (Gen/SmtpDeny.v regenerated from the two Sprintf sites; deny_line_is_the_source_format), it starts with the digits of the model's reply code "
+              "(deny_line_carries_the_model_code) and carries the text verbatim (deny_line_text_verbatim); the differential run compares the implementation's raw reply line with the "
+              "extracted function (verdict deny-text-differs-from-hook-answer)")
 LEVEL_NOTE = ("Coq kernel; extraction; the Lua interpreter (gopher-lua) is third-party: the mapping from a script to its outcome class is by "
               "construction of the generator and validated by running it; oracles as in C01 (net.ParseIP, enmime header decoding); data races between concurrent handler "
               "calls are outside a Gallina model (the concurrent stream compares per-session replies and the store multiset); listeners are pure functions in the model: "
@@ -35,7 +37,7 @@ TRUSTED = ["gopher-lua executes the generated script as the generator intends (o
            "net.ParseIP verdicts and enmime header facts are oracles supplied by the driver from the real functions"]
 ASSUMPTIONS = ["hooks do not answer Deny with the codes 250 or 354 (a hook lying about acceptance is outside the property)",
                "the text of a hook's deny holds no CR or LF (the code writes it verbatim: a text with line breaks injects reply lines; reply_ok accepts any integer code of a Deny)"]
-NOT_PROVED = ["the deny text reaches the client verbatim (differential only: reply lines are code x flag in the model)",
+NOT_PROVED = [
               "listener purity: a listener's writes to its argument are invisible to the session and to later listeners (differential only, fixes 0021/0023)"]
 
 
